@@ -333,12 +333,21 @@ def _run_cli(cmd, text, timeout_ms):
         os.unlink(path)
 
 
+def _std_nth(smt):
+    """z3 5.x's simplifier splits seq.nth(s, i) into its internal in-range / out-of-range parts
+    (ite(0 <= i < len s, seq.nth_i(s, i), seq.nth_u(s, i))); these symbols are not SMT-LIB: cvc5 rejects them and
+    z3 4.8 reads them as fresh uninterpreted functions (bogus `sat`). Both parts are seq.nth on their own range
+    (seq.nth out of range is an unspecified function of (s, i), exactly like nth_u), so print them as seq.nth."""
+    return smt.replace("seq.nth_i", "seq.nth").replace("seq.nth_u", "seq.nth")
+
+
 def _z3_old(smt, timeout_ms):
-    return _run_cli(["/usr/bin/z3", f"-T:{max(1, timeout_ms // 1000)}"], smt, timeout_ms)
+    return _run_cli(["/usr/bin/z3", f"-T:{max(1, timeout_ms // 1000)}"], _std_nth(smt), timeout_ms)
 
 
 def _cvc5(smt, timeout_ms):
     import re
+    smt = _std_nth(smt)
     smt = re.sub(r"\(_ ([^ ()]+) 0\)", r"\1", smt)  # z3 5.x prints recursive-function symbols as (_ f 0)
     return _run_cli(["/usr/bin/cvc5", "--strings-exp", f"--tlimit={timeout_ms}"], "(set-logic ALL)\n" + smt, timeout_ms)
 
